@@ -1,12 +1,16 @@
 package PKG
 
 import (
+	"context"
+
+	"github.com/bmeg/grip/engine/pipeline"
 	"github.com/bmeg/grip/gdbi"
 	"github.com/bmeg/grip/gripql"
 )
 
 func init() {
 	vHarnesses["VerifH_C07_volume"] = VerifH_C07_volume
+	vHarnesses["VerifH_C07_cancel"] = VerifH_C07_cancel
 }
 
 // c07Cycle: n vertices on a directed cycle v0 -> v1 -> ... -> v0 (every vertex has
@@ -84,4 +88,54 @@ func VerifH_C07_volume() {
 	vReach("c07.closed")
 	vAssert("C07.row-count", len(rows) == want)
 	vAssert("C07.no-goroutine-left", vBlockedGoroutines() == 0)
+}
+
+// VerifH_C07_cancel: the client goes away after k rows: the context is cancelled,
+// the handler keeps draining (as server.Traversal does) and the stream must still
+// be closed, with no goroutine left, after at most the full number of rows.
+func VerifH_C07_cancel() {
+	sizes := []int{3, 25, 45, 70}
+	n := sizes[vChoice("size", vParam("SIZES", 3))] * vParam("NATIVE_SCALE", 1)
+	g := c07Cycle(n)
+	var stmts []*gripql.GraphStatement
+	full := 0
+	switch vChoice("program", 4) {
+	case 0:
+		stmts, full = []*gripql.GraphStatement{sV(), sOut()}, n
+	case 1:
+		stmts, full = []*gripql.GraphStatement{sV(), sOut(), sIn()}, n
+	case 2:
+		stmts, full = []*gripql.GraphStatement{sE(), sOut()}, n
+	default:
+		stmts, full = []*gripql.GraphStatement{sV(), sOutE(), sOut(), sHasLabel("L")}, n
+	}
+	pipe, err := g.Compiler().Compile(stmts, nil)
+	vAssert("C07.cancel.compiles", err == nil)
+	if err != nil {
+		return
+	}
+	k := vChoice("cancelAfter", 4) // rows read before the client goes away (3 = never)
+	ctx, cancel := context.WithCancel(context.Background())
+	man := &vManager{}
+	got := 0
+	for t := range pipeline.Start(ctx, pipe, man, 2, nil, nil) {
+		if t.IsSignal() {
+			continue
+		}
+		got++
+		if got == k+0 && k < 3 && k > 0 {
+			cancel()
+		}
+	}
+	if k == 0 {
+		cancel()
+	}
+	man.Cleanup()
+	cancel()
+	vReach("c07.cancel.closed")
+	vAssert("C07.cancel.at-most-all-rows", got <= full)
+	if k == 3 {
+		vAssert("C07.cancel.uncancelled-complete", got == full)
+	}
+	vAssert("C07.cancel.no-goroutine-left", vBlockedGoroutines() == 0)
 }
